@@ -992,4 +992,401 @@ theorem responses_eq (F : Facts) (hF : F.NextOk) (sv : Server) (msgs : List Msg)
     responses F sv msgs n = expected n ((feedRun .fresh msgs).map (respOfPull F)) :=
   Server.nexts_spec F hF _ n _ msgs none (Server.get_open sv msgs)
 
+/-! ### concurrent `next` requests -/
+
+def iterSess (F : Facts) : Nat → Session → Session
+  | 0, s => s
+  | n + 1, s => iterSess F n (s.locked F).1
+
+theorem iterSess_succ (F : Facts) : ∀ (n : Nat) (s : Session),
+    iterSess F (n + 1) s = ((iterSess F n s).locked F).1
+  | 0, _ => rfl
+  | n + 1, s => by
+    have := iterSess_succ F n (s.locked F).1
+    simp only [iterSess] at this ⊢
+    exact this
+
+theorem lockedAll_succ (F : Facts) : ∀ (n : Nat) (s : Session),
+    lockedAll F (n + 1) s = lockedAll F n s ++ [((iterSess F n s).locked F).2]
+  | 0, _ => rfl
+  | n + 1, s => by
+    have := lockedAll_succ F n (s.locked F).1
+    simp only [lockedAll, iterSess, List.cons_append] at this ⊢
+    rw [this]
+
+theorem lockedAll_length (F : Facts) : ∀ (n : Nat) (s : Session), (lockedAll F n s).length = n
+  | 0, _ => rfl
+  | n + 1, s => by simp [lockedAll, lockedAll_length F n]
+
+def finishedMsg : String := "svs next: stream already finished"
+
+/-- first `n` of `l`, then "already finished" for ever -/
+def padRes : Nat → List PullRes → List PullRes
+  | 0, _ => []
+  | n + 1, [] => .error finishedMsg :: padRes n []
+  | n + 1, x :: r => x :: padRes n r
+
+theorem lockedAll_done (F : Facts) (hF : F.NextOk) : ∀ (n : Nat) (s : Session), s.done = true →
+    lockedAll F n s = padRes n [] := by
+  intro n
+  induction n with
+  | zero => intro s _; rfl
+  | succ n ih =>
+    intro s hd
+    have h1 : s.locked F = (s, .error finishedMsg) := by
+      simp [Session.locked, hF.checked, hd, finishedMsg]
+    simp only [lockedAll, padRes, h1]
+    rw [ih s hd]
+
+/-- The session-lock region, iterated: the pull results of the delivered sequence, then errors. -/
+theorem lockedAll_spec (F : Facts) (hF : F.NextOk) : ∀ (n : Nat) (rx : List Msg) (la : Option Bytes),
+    lockedAll F n ⟨rx, la, false⟩ = padRes n (feedRun (stOf la) rx) := by
+  intro n
+  induction n with
+  | zero => intro rx la; rfl
+  | succ n ih =>
+    intro rx la
+    obtain ⟨hres, hdone⟩ := pull_results rx la false
+    simp only [lockedAll, Session.locked, Bool.and_false, Bool.false_eq_true, if_false]
+    rw [hres]
+    cases hp : Session.pull ⟨rx, la, false⟩ with
+    | mk s1 r =>
+      rw [hp] at hdone
+      simp only [] at hdone
+      cases r with
+      | error e =>
+        simp only [padRes]
+        rw [lockedAll_done F hF n _ (by simp [hF.onErr])]
+      | ok v =>
+        obtain ⟨c, last⟩ := v
+        cases last with
+        | true =>
+          simp only [padRes]
+          rw [lockedAll_done F hF n _ (by simp [hF.onLast])]
+        | false =>
+          simp only [padRes, Bool.or_false]
+          have : ({ s1 with done := s1.done } : Session) = ⟨s1.rx, s1.lookahead, false⟩ := by
+            cases s1; simp_all
+          rw [this, ih]
+
+/-- What a schedule cannot change: the log is the sequential iteration of the session-lock region. -/
+def Conc.LogInv (F : Facts) (s0 : Session) (s : Conc) : Prop :=
+  s.log = lockedAll F s.log.length s0 ∧ s.sess = iterSess F s.log.length s0
+
+theorem Conc.step_logInv (F : Facts) (s0 : Session) (s : Conc) (a : Act) (h : s.LogInv F s0) :
+    (s.step F a).LogInv F s0 := by
+  obtain ⟨h1, h2⟩ := h
+  cases a with
+  | cancel => exact ⟨h1, h2⟩
+  | call i =>
+    simp only [Conc.step]
+    cases hc : s.calls[i]? with
+    | none => exact ⟨h1, h2⟩
+    | some c =>
+      cases c with
+      | start => exact ⟨h1, h2⟩
+      | holding =>
+        simp only [Conc.LogInv, List.length_append, List.length_cons, List.length_nil]
+        constructor
+        · rw [lockedAll_succ, ← h1, ← h2]
+        · rw [iterSess_succ, ← h2]
+      | pulled k r =>
+        cases r with
+        | ok v => obtain ⟨c, last⟩ := v; exact ⟨h1, h2⟩
+        | error e => exact ⟨h1, h2⟩
+      | answered k resp => exact ⟨h1, h2⟩
+
+theorem Conc.run_logInv (F : Facts) (s0 : Session) : ∀ (sched : List Act) (s : Conc),
+    s.LogInv F s0 → (Conc.run F s sched).LogInv F s0 := by
+  intro sched
+  induction sched with
+  | nil => intro s h; exact h
+  | cons a r ih => intro s h; exact ih _ (Conc.step_logInv F s0 s a h)
+
+/-- Every call that has been through the session lock holds the outcome logged at its own index, the
+indices of different calls differ, and a framed response is the image of that outcome. -/
+def Conc.CallInv (F : Facts) (s : Conc) : Prop :=
+  (∀ (i k : Nat) (r : PullRes), s.calls[i]? = some (Call.pulled k r) → s.log[k]? = some r) ∧
+  (∀ (i k : Nat) (resp : Resp), s.calls[i]? = some (Call.answered (some k) resp) →
+    ∃ r, s.log[k]? = some r ∧ resp = respOfPull F r) ∧
+  (∀ (i : Nat) (resp : Resp), s.calls[i]? = some (Call.answered none resp) → resp = Resp.error) ∧
+  (∀ (i j k : Nat), (s.calls[i]?.bind Call.idx) = some k → (s.calls[j]?.bind Call.idx) = some k → i = j)
+
+theorem getElem?_append_left_some {α} (l : List α) (x : α) (k : Nat) (r : α) (h : l[k]? = some r) :
+    (l ++ [x])[k]? = some r := by
+  have hk : k < l.length := by
+    cases hlt : decide (k < l.length) with
+    | true => exact of_decide_eq_true hlt
+    | false =>
+      have : l.length ≤ k := Nat.le_of_not_lt (of_decide_eq_false hlt)
+      rw [List.getElem?_eq_none this] at h; cases h
+  rw [List.getElem?_append_left hk]; exact h
+
+theorem Conc.step_callInv (F : Facts) (s : Conc) (a : Act) (h : s.CallInv F)
+    (hidx : ∀ (i k : Nat), (s.calls[i]?.bind Call.idx) = some k → k < s.log.length) :
+    (s.step F a).CallInv F ∧
+    (∀ (i k : Nat), ((s.step F a).calls[i]?.bind Call.idx) = some k → k < (s.step F a).log.length) := by
+  obtain ⟨h1, h2, h3, h4⟩ := h
+  cases a with
+  | cancel => exact ⟨⟨h1, h2, h3, h4⟩, hidx⟩
+  | call i =>
+    simp only [Conc.step]
+    cases hc : s.calls[i]? with
+    | none => exact ⟨⟨h1, h2, h3, h4⟩, hidx⟩
+    | some c =>
+      have hi : i < s.calls.length := by
+        cases hlt : decide (i < s.calls.length) with
+        | true => exact of_decide_eq_true hlt
+        | false =>
+          have : s.calls.length ≤ i := Nat.le_of_not_lt (of_decide_eq_false hlt)
+          rw [List.getElem?_eq_none this] at hc; cases hc
+      -- generic facts about `set`
+      have hset : ∀ (v : Call) (j : Nat), (s.calls.set i v)[j]? = if i = j then some v else s.calls[j]? := by
+        intro v j
+        rw [List.getElem?_set]
+        by_cases hij : i = j
+        · subst hij; simp [hi]
+        · simp [hij]
+      cases c with
+      | start =>
+        simp only []
+        refine ⟨⟨?_, ?_, ?_, ?_⟩, ?_⟩
+        · intro j k r hj
+          rw [hset] at hj
+          by_cases hij : i = j
+          · rw [if_pos hij] at hj; split at hj <;> cases hj
+          · rw [if_neg hij] at hj; exact h1 j k r hj
+        · intro j k resp hj
+          rw [hset] at hj
+          by_cases hij : i = j
+          · rw [if_pos hij] at hj; split at hj <;> cases hj
+          · rw [if_neg hij] at hj; exact h2 j k resp hj
+        · intro j resp hj
+          rw [hset] at hj
+          by_cases hij : i = j
+          · rw [if_pos hij] at hj
+            split at hj
+            · cases hj
+            · simp only [Option.some.injEq, Call.answered.injEq, true_and] at hj; exact hj.symm
+          · rw [if_neg hij] at hj; exact h3 j resp hj
+        · intro j1 j2 k e1 e2
+          rw [hset] at e1 e2
+          by_cases a1 : i = j1
+          · rw [if_pos a1] at e1; split at e1 <;> simp [Call.idx] at e1
+          · by_cases a2 : i = j2
+            · rw [if_pos a2] at e2; split at e2 <;> simp [Call.idx] at e2
+            · rw [if_neg a1] at e1; rw [if_neg a2] at e2; exact h4 j1 j2 k e1 e2
+        · intro j k e
+          rw [hset] at e
+          by_cases a1 : i = j
+          · rw [if_pos a1] at e; split at e <;> simp [Call.idx] at e
+          · rw [if_neg a1] at e; exact hidx j k e
+      | holding =>
+        simp only []
+        refine ⟨⟨?_, ?_, ?_, ?_⟩, ?_⟩
+        · intro j k r hj
+          rw [hset] at hj
+          by_cases hij : i = j
+          · rw [if_pos hij] at hj
+            simp only [Option.some.injEq, Call.pulled.injEq] at hj
+            obtain ⟨rfl, rfl⟩ := hj
+            simp
+          · rw [if_neg hij] at hj
+            exact getElem?_append_left_some _ _ _ _ (h1 j k r hj)
+        · intro j k resp hj
+          rw [hset] at hj
+          by_cases hij : i = j
+          · rw [if_pos hij] at hj; cases hj
+          · rw [if_neg hij] at hj
+            obtain ⟨r, hr, he⟩ := h2 j k resp hj
+            exact ⟨r, getElem?_append_left_some _ _ _ _ hr, he⟩
+        · intro j resp hj
+          rw [hset] at hj
+          by_cases hij : i = j
+          · rw [if_pos hij] at hj; cases hj
+          · rw [if_neg hij] at hj; exact h3 j resp hj
+        · intro j1 j2 k e1 e2
+          rw [hset] at e1 e2
+          by_cases a1 : i = j1
+          · by_cases a2 : i = j2
+            · rw [← a1, ← a2]
+            · rw [if_pos a1] at e1; rw [if_neg a2] at e2
+              simp only [Option.bind_some, Call.idx, Option.some.injEq] at e1
+              have := hidx j2 k e2
+              omega
+          · by_cases a2 : i = j2
+            · rw [if_pos a2] at e2; rw [if_neg a1] at e1
+              simp only [Option.bind_some, Call.idx, Option.some.injEq] at e2
+              have := hidx j1 k e1
+              omega
+            · rw [if_neg a1] at e1; rw [if_neg a2] at e2; exact h4 j1 j2 k e1 e2
+        · intro j k e
+          rw [hset] at e
+          simp only [List.length_append, List.length_cons, List.length_nil]
+          by_cases a1 : i = j
+          · rw [if_pos a1] at e
+            simp only [Option.bind_some, Call.idx, Option.some.injEq] at e
+            omega
+          · rw [if_neg a1] at e
+            have := hidx j k e
+            omega
+      | pulled k0 r0 =>
+        have hk0 := h1 i k0 r0 hc
+        have hidx0 : (s.calls[i]?.bind Call.idx) = some k0 := by rw [hc]; rfl
+        -- both arms set call `i` to `answered (some k0) (respOfPull F r0)` and leave the log alone
+        have key : ∀ (pres : Bool),
+            (Conc.CallInv F { s with present := pres, calls := s.calls.set i (.answered (some k0) (respOfPull F r0)) }) ∧
+            (∀ (j k : Nat), (((s.calls.set i (.answered (some k0) (respOfPull F r0)))[j]?).bind Call.idx) = some k → k < s.log.length) := by
+          intro pres
+          refine ⟨⟨?_, ?_, ?_, ?_⟩, ?_⟩
+          · intro j k r hj
+            simp only [] at hj
+            rw [hset] at hj
+            by_cases hij : i = j
+            · rw [if_pos hij] at hj; cases hj
+            · rw [if_neg hij] at hj; exact h1 j k r hj
+          · intro j k resp hj
+            simp only [] at hj
+            rw [hset] at hj
+            by_cases hij : i = j
+            · rw [if_pos hij] at hj
+              simp only [Option.some.injEq, Call.answered.injEq] at hj
+              obtain ⟨rfl, rfl⟩ := hj
+              exact ⟨r0, hk0, rfl⟩
+            · rw [if_neg hij] at hj; exact h2 j k resp hj
+          · intro j resp hj
+            simp only [] at hj
+            rw [hset] at hj
+            by_cases hij : i = j
+            · rw [if_pos hij] at hj; cases hj
+            · rw [if_neg hij] at hj; exact h3 j resp hj
+          · intro j1 j2 k e1 e2
+            simp only [] at e1 e2
+            rw [hset] at e1 e2
+            by_cases a1 : i = j1
+            · by_cases a2 : i = j2
+              · rw [← a1, ← a2]
+              · rw [if_pos a1] at e1; rw [if_neg a2] at e2
+                simp only [Option.bind_some, Call.idx, Option.some.injEq] at e1
+                subst e1
+                exact (a2 (h4 i j2 k0 hidx0 e2)).elim
+            · by_cases a2 : i = j2
+              · rw [if_pos a2] at e2; rw [if_neg a1] at e1
+                simp only [Option.bind_some, Call.idx, Option.some.injEq] at e2
+                subst e2
+                exact (a1 (h4 i j1 k0 hidx0 e1)).elim
+              · rw [if_neg a1] at e1; rw [if_neg a2] at e2; exact h4 j1 j2 k e1 e2
+          · intro j k e
+            rw [hset] at e
+            by_cases a1 : i = j
+            · rw [if_pos a1] at e
+              simp only [Option.bind_some, Call.idx, Option.some.injEq] at e
+              subst e
+              exact hidx i k0 hidx0
+            · rw [if_neg a1] at e; exact hidx j k e
+        cases r0 with
+        | ok v =>
+          obtain ⟨c, last⟩ := v
+          exact key _
+        | error e => exact key _
+      | answered k resp => exact ⟨⟨h1, h2, h3, h4⟩, hidx⟩
+
+theorem Conc.run_callInv (F : Facts) : ∀ (sched : List Act) (s : Conc), s.CallInv F →
+    (∀ (i k : Nat), (s.calls[i]?.bind Call.idx) = some k → k < s.log.length) →
+    (Conc.run F s sched).CallInv F := by
+  intro sched
+  induction sched with
+  | nil => intro s h _; exact h
+  | cons a r ih =>
+    intro s h hi
+    obtain ⟨h', hi'⟩ := Conc.step_callInv F s a h hi
+    exact ih _ h' hi'
+
+def Conc.init (msgs : List Msg) (k : Nat) : Conc :=
+  { present := true, sess := { rx := msgs }, calls := List.replicate k .start }
+
+theorem Conc.init_start (msgs : List Msg) (k i : Nat) (c : Call)
+    (h : (Conc.init msgs k).calls[i]? = some c) : c.idx = none := by
+  simp only [Conc.init, List.getElem?_replicate] at h
+  split at h
+  · cases h; rfl
+  · cases h
+
+theorem Conc.init_callInv (F : Facts) (msgs : List Msg) (k : Nat) : (Conc.init msgs k).CallInv F ∧
+    (∀ (i j : Nat), ((Conc.init msgs k).calls[i]?.bind Call.idx) = some j → j < (Conc.init msgs k).log.length) := by
+  have key : ∀ (i j : Nat), ((Conc.init msgs k).calls[i]?.bind Call.idx) = some j → False := by
+    intro i j h
+    cases hc : (Conc.init msgs k).calls[i]? with
+    | none => rw [hc] at h; cases h
+    | some c => rw [hc] at h; simp only [Option.bind_some] at h; rw [Conc.init_start msgs k i c hc] at h; cases h
+  refine ⟨⟨?_, ?_, ?_, ?_⟩, ?_⟩
+  · intro i j r h; exact (key i j (by rw [h]; rfl)).elim
+  · intro i j resp h; exact (key i j (by rw [h]; rfl)).elim
+  · intro i resp h
+    exfalso
+    simp only [Conc.init, List.getElem?_replicate] at h
+    split at h <;> cases h
+  · intro i j x h; exact (key i x h).elim
+  · intro i j h; exact (key i j h).elim
+
+def okPair : PullRes → Option (Bytes × Bool)
+  | .ok p => some p
+  | .error _ => none
+
+theorem padRes_okPairs : ∀ (n : Nat) (l : List (Bytes × Bool)),
+    (padRes n (l.map .ok)).filterMap okPair = l.take n
+  | 0, _ => rfl
+  | n + 1, [] => by
+    have := padRes_okPairs n []
+    simp only [List.map_nil, List.take_nil] at this
+    simp only [List.map_nil, padRes, List.filterMap_cons, okPair, this, List.take_nil]
+  | n + 1, x :: r => by simp [padRes, okPair, padRes_okPairs n r]
+
+/-! ### extracted arms of `Session::pull` -/
+
+theorem recvA_spec (s : Session) : s.recvA specPull = s.recv := by
+  cases s with
+  | mk rx la dn => cases rx <;> rfl
+
+theorem peekA_spec (s : Session) (c : Bytes) : s.peekA specPull c = s.peek c := by
+  cases s with
+  | mk rx la dn =>
+    cases rx with
+    | nil => rfl
+    | cons m r => cases m <;> rfl
+
+theorem pullA_spec (s : Session) : s.pullA specPull = s.pull := by
+  cases s with
+  | mk rx la dn =>
+    cases la with
+    | some c =>
+      cases rx with
+      | nil => rfl
+      | cons m r => cases m <;> rfl
+    | none =>
+      cases rx with
+      | nil => rfl
+      | cons m r =>
+        cases m with
+        | chunk c =>
+          cases r with
+          | nil => rfl
+          | cons m' r' => cases m' <;> rfl
+        | «end» => rfl
+        | fail e => rfl
+
+theorem pullAllA_spec : ∀ (n : Nat) (s : Session), pullAllA specPull n s = pullAll n s
+  | 0, _ => rfl
+  | n + 1, s => by
+    simp only [pullAllA, pullAll, pullA_spec]
+    cases hp : s.pull with
+    | mk s' r =>
+      cases r with
+      | error e => rfl
+      | ok v =>
+        obtain ⟨c, last⟩ := v
+        cases last with
+        | true => rfl
+        | false => simp only []; rw [pullAllA_spec n s']
+
 end Repe.Svs
